@@ -1,29 +1,34 @@
 (* C19 — privileges are dropped completely and in the right order at start-up.
    Property theorems only.  `prog` (Gen/Init.v) is the IR of initialize /
-   get_server / init_security / init_* regenerated from pygopherd/initialization.py
-   on every run, so these theorems are re-checked against the current source.
+   get_server / init_security / init_* AND of the server constructor (BaseServer
+   .__init__ / server_bind / server_activate of pygopherd/server.py over
+   socketserver.TCPServer) regenerated from the source on every run, so these
+   theorems are re-checked against the current source.
 
-   Domain (finite, spelled out in the statements): every configuration
-   `o : opts` = usechroot x setuid x setgid x TLS {absent, off, on} x pidfile x
-   detach (96 configurations, all values of the record), and for each of them
-   every single failure `all_failures prog o` = no failure, or the k-th external
-   call of that start-up raising OSError / KeyError / any other Exception, for
-   every k below the number of external calls of the unfailed start-up.
-   `run_initialize prog o f` is the outcome: Running / Abort / Exited with the
-   trace of external calls that were carried out. *)
+   Domain (finite, spelled out in the statements): `all_opts` = usechroot x
+   setuid x setgid x TLS {absent, off, on} x pidfile x detach (96), the accounts
+   whose numeric id is 0 for each present/absent combination (10), and every
+   boolean option (usechroot, detach, enable_tls) in every spelling that
+   ConfigParser.getboolean accepts (1/yes/true/on, 0/no/false/off, mixed case)
+   and in some it rejects (39); for each of them every single failure
+   `all_failures prog o` = no failure, or the k-th external call of that start-up
+   raising OSError / KeyError / any other Exception, for every k below the number
+   of external calls of the unfailed start-up.  `run_initialize prog o f` is the
+   outcome: Running / Abort / Exited with the trace of external calls (socket
+   calls included) that were carried out. *)
 From Coq Require Import String Sorted.
 From PG Require Import Lib.Str Model.Init Model.InitPinned Gen.Init Proofs.C19Facts.
-
 Local Open Scope N_scope.
 
 (* Every privilege-changing call (chroot, setgroups, setregid, setreuid, any
-   other set*id) is preceded by the bind of the listening socket and, when TLS
-   is enabled, by the loading of certificate and key; the key is loaded before
-   the socket is bound. *)
+   other set*id) is preceded by socket.bind AND socket.listen of the listening
+   socket and, when TLS is enabled, by the loading of certificate and key; the
+   key is loaded before the socket is bound. *)
 Theorem C19_bind_keys_first :
-  forall o f, In f (all_failures prog o) ->
+  forall o, In o all_opts -> forall f, In f (all_failures prog o) ->
   forall pre e post, out_trace (run_initialize prog o f) = pre ++ e :: post ->
-    (is_priv e = true -> existsb is_bind pre = true /\ (o_tls o = TlsOn -> existsb is_loadkeys pre = true)) /\
+    (is_priv e = true -> existsb is_bind pre = true /\ existsb is_listen pre = true /\
+                         (o_tls o = TlsOn -> existsb is_loadkeys pre = true)) /\
     (is_bind e = true -> o_tls o = TlsOn -> existsb is_loadkeys pre = true).
 Proof. exact C19Facts.bind_keys_first. Qed.
 Print Assumptions C19_bind_keys_first.
@@ -32,7 +37,7 @@ Print Assumptions C19_bind_keys_first.
    the trace are strictly increasing (so each step happens at most once), and no
    other identity-changing call occurs. *)
 Theorem C19_order :
-  forall o f, In f (all_failures prog o) ->
+  forall o, In o all_opts -> forall f, In f (all_failures prog o) ->
   StronglySorted N.lt (ranks (out_trace (run_initialize prog o f))) /\
   (forall e, In e (out_trace (run_initialize prog o f)) -> is_idchange e = true ->
      is_setgroups e = true \/ is_setregid e = true \/ is_setreuid e = true).
@@ -41,23 +46,24 @@ Print Assumptions C19_order.
 
 (* A start-up without failure reaches Running having done exactly the configured
    steps: chroot iff usechroot, setgroups(()) iff a uid or a gid is configured,
-   setregid(g, g) iff setgid (g = element 2 of grp.getgrnam(<setgid>)),
-   setreuid(u, u) iff setuid. *)
+   setregid(g, g) iff setgid (g = element 2 of grp.getgrnam(<setgid>), which may
+   be 0), setreuid(u, u) iff setuid — for every spelling of the boolean options
+   that getboolean accepts (o_bad o = false). *)
 Theorem C19_steps_present :
-  forall o,
+  forall o, In o all_opts -> o_bad o = false ->
   exists tr, run_initialize prog o None = Running tr /\
     has is_chroot tr = o_chroot o /\ has is_setgroups tr = (o_uid o || o_gid o)%bool /\
     has is_setregid tr = o_gid o /\ has is_setreuid tr = o_uid o /\
     (o_chroot o = true -> In E_chroot tr) /\
     ((o_uid o || o_gid o)%bool = true -> In E_setgroups tr) /\
-    (o_gid o = true -> In E_setregid tr) /\ (o_uid o = true -> In E_setreuid tr).
+    (o_gid o = true -> In (E_setregid o) tr) /\ (o_uid o = true -> In (E_setreuid o) tr).
 Proof. exact C19Facts.presence. Qed.
 Print Assumptions C19_steps_present.
 
 (* After chroot: config root := "/" and chdir("/") happen before the next
    identity change, and in any case before start-up reaches Running. *)
 Theorem C19_chroot_complete :
-  forall o f, In f (all_failures prog o) ->
+  forall o, In o all_opts -> forall f, In f (all_failures prog o) ->
   forall pre e post, out_trace (run_initialize prog o f) = pre ++ e :: post -> is_chroot e = true ->
     is_running (run_initialize prog o f) = true \/ existsb is_idchange post = true ->
     existsb is_setroot (until_idchange post) = true /\ existsb is_chdir_root (until_idchange post) = true.
@@ -74,14 +80,25 @@ Print Assumptions C19_chdir_refuted.
 
 (* A failure of the k-th external call — unless that call is one of the two
    best-effort process-group calls — aborts start-up at k: the exception leaves
-   initialize, nothing swallows it, and no further external call is made. *)
+   initialize, nothing swallows it, and the only external call that may follow
+   is the closing of the half-built server's socket. *)
 Theorem C19_abort :
-  forall o k x, In (Some (k, x)) (all_failures prog o) ->
+  forall o, In o all_opts -> forall k x, In (Some (k, x)) (all_failures prog o) ->
   mem_str (ename (nth_call k (run_initialize prog o None))) best_effort = false ->
   exists tr, run_initialize prog o (Some (k, x)) = Abort (Some k) tr /\
-             calls_of tr = firstn k (calls_of (out_trace (run_initialize prog o None))).
+             firstn k (calls_of tr) = firstn k (calls_of (out_trace (run_initialize prog o None))) /\
+             forallb is_cleanup (skipn k (calls_of tr)) = true.
 Proof. exact C19Facts.abort. Qed.
 Print Assumptions C19_abort.
+
+(* A boolean option with a value that ConfigParser.getboolean rejects: start-up
+   does not reach Running and performs no privilege step. *)
+Theorem C19_bad_boolean_aborts :
+  forall o, In o all_opts -> o_bad o = true ->
+  is_running (run_initialize prog o None) = false /\
+  existsb is_priv (out_trace (run_initialize prog o None)) = false.
+Proof. exact C19Facts.bad_boolean_aborts. Qed.
+Print Assumptions C19_bad_boolean_aborts.
 
 (* Whatever credentials the process starts with — plain root; real ids already
    those of the account but effective and saved ids 0 and root's groups (a
@@ -91,9 +108,9 @@ Print Assumptions C19_abort.
    groups if either is configured.  (final_cred interprets the recorded calls with
    the Linux semantics of setgroups / setre*id / setres*id / set*id.) *)
 Theorem C19_final_credentials :
-  forall o st,
+  forall o, In o all_opts -> o_bad o = false -> forall st,
   exists tr, run_initialize_from prog st o None = Running tr /\
-             final_cred (start_cred st) tr = wanted_cred o (start_cred st).
+             final_cred (start_cred st o) tr = wanted_cred o (start_cred st o).
 Proof. exact C19Facts.final_credentials. Qed.
 Print Assumptions C19_final_credentials.
 
@@ -101,12 +118,12 @@ Print Assumptions C19_final_credentials.
    not the bind, not the key loading, not the account look-ups *)
 Theorem C19_best_effort_is_not_a_privilege_step :
   forall e, mem_str (ename e) best_effort = true ->
-  is_priv e = false /\ is_bind e = false /\ is_loadkeys e = false /\ is_name "os.chdir" e = false /\
-  is_name "pwd.getpwnam" e = false /\ is_name "grp.getgrnam" e = false.
+  is_priv e = false /\ is_bind e = false /\ is_listen e = false /\ is_loadkeys e = false /\
+  is_name "os.chdir" e = false /\ is_name "pwd.getpwnam" e = false /\ is_name "grp.getgrnam" e = false.
 Proof. exact C19Facts.best_effort_not_priv. Qed.
 Print Assumptions C19_best_effort_is_not_a_privilege_step.
 
-(* init_security called on its own (8 configurations x every failure): same
+(* init_security called on its own (its 31 configurations x every failure): same
    order, and every failure aborts *)
 Theorem C19_security_alone :
   forall o, In o sec_opts -> forall f, In f (all_failures_sec prog o) ->
@@ -115,17 +132,26 @@ Theorem C19_security_alone :
       is_setgroups e = true \/ is_setregid e = true \/ is_setreuid e = true)) /\
   (forall k x, f = Some (k, x) ->
      exists tr, run_security prog o (Some (k, x)) = Abort (Some k) tr /\
-                calls_of tr = firstn k (calls_of (out_trace (run_security prog o None)))).
+                firstn k (calls_of tr) = firstn k (calls_of (out_trace (run_security prog o None))) /\
+                forallb is_cleanup (skipn k (calls_of tr)) = true).
 Proof. exact C19Facts.security_alone. Qed.
 Print Assumptions C19_security_alone.
 
 (* non-vacuity: the full start-up sequence of the configuration with everything
-   switched on, and the abort of a failing setregid *)
+   switched on, the abort of a failing setregid, and a group whose id is 0 *)
 Example C19_example :
-  let o := Opts true true true TlsOn true true in
-  map ename (filter is_priv (out_trace (run_initialize prog o None))) =
-    map lit ["os.chroot"; "os.setgroups"; "os.setregid"; "os.setreuid"]%string /\
-  List.length (all_failures prog o) = 67%nat /\
-  (exists tr, run_initialize prog o (Some (20%nat, XOS)) = Abort (Some 20%nat) tr /\
-              map ename (filter is_priv tr) = map lit ["os.chroot"; "os.setgroups"]%string).
-Proof. vm_compute. split; [reflexivity|]. split; [reflexivity|]. eexists. split; reflexivity. Qed.
+  let o := Opts true true true TlsOn true true false false None in
+  In o all_opts /\
+  map ename (filter (fun e => is_priv e || is_bind e || is_listen e) (out_trace (run_initialize prog o None))) =
+    map lit ["socket.bind"; "socket.listen"; "os.chroot"; "os.setgroups"; "os.setregid"; "os.setreuid"]%string /\
+  List.length (all_failures prog o) = 88%nat /\
+  (exists tr, run_initialize prog o (Some (27%nat, XOS)) = Abort (Some 27%nat) tr /\
+              map ename (filter is_priv tr) = map lit ["os.chroot"; "os.setgroups"]%string) /\
+  (let w := Opts false false true TlsAbsent false false false true None in
+   In w all_opts /\
+   filter is_priv (out_trace (run_initialize prog w None)) =
+     [Eff (lit "os.setgroups") [lit "()"]; Eff (lit "os.setregid") [lit "0"; lit "0"]]).
+Proof.
+  vm_compute. split; [repeat (first [left; reflexivity | right])|]. split; [reflexivity|]. split; [reflexivity|].
+  split; [eexists; split; reflexivity|]. split; [repeat (first [left; reflexivity | right]) | reflexivity].
+Qed.
